@@ -140,6 +140,40 @@ def vclass(fr):
     return s + 'huge'
 
 
+def input_class(sp, fr, ulp, out, prec):
+    """Class of the (field, value) pair that matters for rounding: does the value round up to a power of ten at
+    the precision shown, or does it lie completely below the last decimal place of a fixed-point field?"""
+    av = abs(fr)
+    if av == 0:
+        return 'zero'
+    e10 = 0
+    p = Fraction(1)
+    if av >= 1:
+        while p * 10 <= av:
+            p *= 10
+            e10 += 1
+    else:
+        while p > av:
+            p /= 10
+            e10 -= 1
+    if sp.sci:
+        mant = bytes(c for c in out.split(b'E')[0].split(b'D')[0] if c in b'0123456789').lstrip(b'0')
+        unit = Fraction(10) ** (e10 - min(max(len(mant), 1), prec) + 1)
+    else:
+        unit = Fraction(10) ** (-sp.decimals)
+        if av < unit:
+            return 'value-below-last-decimal-place'
+        unit = max(unit, Fraction(10) ** (e10 - prec + 1))
+    if Fraction(10) ** (e10 + 1) - av <= unit / 2 + ulp:
+        return 'rounds-up-to-power-of-ten'
+    return 'other-%s' % vclass(fr).lstrip('-')
+
+
+def vkey(sp, problem, fr, ulp, out, prec):
+    prefix = ('star' if sp.star else '') + ('dollar' if sp.dollar else '') or 'plain'
+    return 'format/%s/%s/%s/%s' % ('sci' if sp.sci else 'fix', prefix, problem, input_class(sp, fr, ulp, out, prec))
+
+
 def shape(sp):
     return '%s%s%s%s%s%s%s' % ('+' if sp.lead_plus else '', '*' if sp.star else '', '$' if sp.dollar else '',
                                ',' if sp.comma else '#', '.' if sp.dot else '', '^' if sp.sci else '',
@@ -190,7 +224,7 @@ def check_number(part, sp, nf, label, v, exact, leg):
     part.outcome(oc)
     part.classes.add('%s:%s:%s' % (shape(sp).rstrip('+-') or '+', vclass(fr).lstrip('-'), oc))
     for key, msg in probs:
-        part.violation('format/%s/%s/%s' % (shape(sp), key, vclass(fr)),
+        part.violation(vkey(sp, key, fr, ulp, out, prec),
                        'PRINT USING "%s"; %s (= %s) -> %s' % (sp.text, label, U._dec(fr), msg), case)
 
 
@@ -391,7 +425,7 @@ def work_stmt(shard):
                         continue
                     # the statement on the statement-level output as well
                     for key, msg in U.analyse_number(sp, r.out[:-2], *exact_of(v)):
-                        part.violation('format/%s/%s/%s' % (shape(sp), key, vclass(exact_of(v)[0])),
+                        part.violation(vkey(sp, key, exact_of(v)[0], exact_of(v)[1], r.out[:-2], exact_of(v)[2]),
                                        'PRINT USING "%s";%s -> %s' % (spec_text, vt, msg), case)
                     part.classes.add('stmt:bind:%s' % shape(sp))
                 # type mismatch: a string into a numeric field, a number into a string field
